@@ -785,6 +785,10 @@ class _ColorConfColorDescr:
             if self.bg_color == "":
                 self.bg_color = parent.bg_color
             self.modifiers = {**parent.modifiers, **self.modifiers}
+            if self.fg_color == "-":
+                self.fg_color = None
+            if self.bg_color == "-":
+                self.bg_color = None
         else:
             assert parent is None
             if self.fg_color in ["-", ""]:
